@@ -12,8 +12,9 @@ Local Open Scope list_scope.
 (* ---------------- same-package inputs: union or conflict ---------------------------------------- *)
 (* If Consolidate succeeds then, package by package, the result holds every definition of every
    input of that package - the very object, or one that Object.Equal identifies with it - and
-   nothing else: no definition is dropped, overwritten or invented. (For every iteration sequence
-   of the byPackage map; inputs well-formed: objects keyed by their name, names distinct.) *)
+   nothing else: no definition is dropped, overwritten or invented. (For every sequence of package
+   groups - in particular `group_by_package inputs`, the one the current code uses; inputs
+   well-formed: objects keyed by their name, names distinct.) *)
 Theorem merge_union_or_conflict : forall seq r,
   Forall (fun pg => Forall wf_schema (snd pg)) seq ->
   consolidate_seq seq = Ok r ->
@@ -30,28 +31,47 @@ Proof. exact merge_conflict_err_proof. Qed.
 Print Assumptions merge_conflict_is_an_error.
 
 (* ---------------- input order ------------------------------------------------------------------- *)
-(* Permuting inputs that define pairwise different packages - under ANY iteration orders of the
-   byPackage map before and after - changes neither accept/reject nor any per-package schema
-   (Schemas.Locate). The ORDER of the returned list is not covered: it follows the map (C03,
-   consolidate_order_refuted). *)
-Theorem input_order_irrelevant : forall ss ss' ord ord',
+(* Schemas.Consolidate as it is now (fix 3c2d3f2) is a function of its inputs: the packages come
+   out in order of first appearance. *)
+Theorem consolidate_result_order : forall ss r, consolidate ss = Ok r ->
+  map s_pkg r = map fst (group_by_package ss) /\ (NoDup (map s_pkg ss) -> map s_pkg r = map s_pkg ss).
+Proof. exact consolidate_result_order_proof. Qed.
+Print Assumptions consolidate_result_order.
+
+(* Permuting inputs that define pairwise different packages changes neither accept/reject nor any
+   per-package schema (Schemas.Locate); the returned list is permuted along with the inputs (it
+   lists the packages in input order on both sides) and nothing else changes. That the generated
+   FILES do not depend on that list order is a property of the jennies: validated by the
+   input-permutation runs of the correspondence, not proved. *)
+Theorem input_order_irrelevant : forall ss ss',
   NoDup (map s_pkg ss) -> Permutation ss ss' ->
-  (forall l, Permutation (ord l) l) -> (forall l, Permutation (ord' l) l) ->
-  is_ok (consolidate ord ss) = is_ok (consolidate ord' ss') /\
-  forall r, consolidate ord ss = Ok r ->
-    exists r', consolidate ord' ss' = Ok r' /\ Permutation r r' /\ forall pkg, locate r pkg = locate r' pkg.
+  is_ok (consolidate ss) = is_ok (consolidate ss') /\
+  forall r, consolidate ss = Ok r ->
+    exists r', consolidate ss' = Ok r' /\ Permutation r r' /\ (forall pkg, locate r pkg = locate r' pkg) /\
+               map s_pkg r = map s_pkg ss /\ map s_pkg r' = map s_pkg ss'.
 Proof. exact input_order_irrelevant_proof. Qed.
 Print Assumptions input_order_irrelevant.
 
-(* Adding an input whose package no other input defines leaves the schema of every other package
-   exactly as it was. *)
-Theorem unreferenced_input_irrelevant : forall ss x ord ord',
-  NoDup (map s_pkg (ss ++ [x])) ->
-  (forall l, Permutation (ord l) l) -> (forall l, Permutation (ord' l) l) ->
-  forall r', consolidate ord' (ss ++ [x]) = Ok r' ->
-  exists r, consolidate ord ss = Ok r /\ forall pkg, pkg <> s_pkg x -> locate r pkg = locate r' pkg.
+(* Adding (last) an input whose package no other input defines: the result is the old result -
+   same schemas, same order - followed by the new package's schema. *)
+Theorem unreferenced_input_irrelevant : forall ss x r',
+  NoDup (map s_pkg (ss ++ [x])) -> consolidate (ss ++ [x]) = Ok r' ->
+  exists r y, consolidate ss = Ok r /\ r' = r ++ [y] /\ s_pkg y = s_pkg x /\
+              forall pkg, pkg <> s_pkg x -> locate r pkg = locate r' pkg.
 Proof. exact unreferenced_input_irrelevant_proof. Qed.
 Print Assumptions unreferenced_input_irrelevant.
+
+(* The same two statements for the variant that ranged over the byPackage map (before the fix;
+   not cog's code any more), under ANY iteration orders before and after: per-package schemas
+   only - the order of the list followed the map (C03, unsorted_variant_consolidate_map_order_refuted). *)
+Theorem map_order_variant_input_order_irrelevant : forall ss ss' ord ord',
+  NoDup (map s_pkg ss) -> Permutation ss ss' ->
+  (forall l, Permutation (ord l) l) -> (forall l, Permutation (ord' l) l) ->
+  is_ok (consolidate_map_order ord ss) = is_ok (consolidate_map_order ord' ss') /\
+  forall r, consolidate_map_order ord ss = Ok r ->
+    exists r', consolidate_map_order ord' ss' = Ok r' /\ Permutation r r' /\ forall pkg, locate r pkg = locate r' pkg.
+Proof. exact map_order_input_order_irrelevant_proof. Qed.
+Print Assumptions map_order_variant_input_order_irrelevant.
 
 (* ---------------- the language loop -------------------------------------------------------------- *)
 (* ASSUMED (Section hypotheses made explicit below): a sound copy table that drops nothing; a copy
@@ -116,7 +136,7 @@ Definition ex_obj (n : string) (k : skind) : string * object :=
 Definition ex_in (objs : list (string * object)) : schema :=
   mkSchema "p" {| m_kind := "" ; m_variant := "" ; m_identifier := "" |} "" ty_zero objs.
 Example c07_nonvacuous :
-  (exists r, consolidate (fun l => l) [ex_in [ex_obj "A" KString]; ex_in [ex_obj "B" KBool]] = Ok [r]
+  (exists r, consolidate [ex_in [ex_obj "A" KString]; ex_in [ex_obj "B" KBool]] = Ok [r]
              /\ map fst (s_objects r) = ["A"; "B"]%string) /\
-  is_ok (consolidate (fun l => l) [ex_in [ex_obj "A" KString]; ex_in [ex_obj "A" KBool]]) = false.
+  is_ok (consolidate [ex_in [ex_obj "A" KString]; ex_in [ex_obj "A" KBool]]) = false.
 Proof. split; [eexists; split; vm_compute; reflexivity|vm_compute; reflexivity]. Qed.
